@@ -237,7 +237,7 @@ fn gen_spec(t: &mut Tape) -> Spec {
     let pts = match t.weighted(&[2, 1, 6]) {
         0 => vec![],
         1 => vec![PathControlPoint { pos: Pos::new(t.int(0, 512) as f32, t.int(0, 384) as f32), path_type: Some(PathType::BEZIER) }],
-        _ => gen_points(t, 8, false).0,
+        _ => gen_points_ex(t, 8, false, true).0,
     };
     let len = match t.weighted(&[3, 2, 2, 1]) {
         0 => None,
